@@ -377,7 +377,9 @@ def run_property(mod_name, tier, seed, replay=None):
         matched = None
         for entry in known_open:
             pred = known_preds.get(entry["key"])
-            if entry.get("bucket") == bucket and (pred is None or pred(spec)):
+            want = entry.get("bucket")
+            bucket_ok = want == "*" or bucket == want or (isinstance(want, list) and bucket in want)
+            if bucket_ok and (pred is None or pred(spec)):
                 matched = entry
                 break
         if matched:
